@@ -2,6 +2,7 @@
 # Independent confirmation of a candidate breaking change before it is kept under /verif/seeded:
 # in a fresh scratch worktree of /repo: (1) patch applies, (2) the existing suite passes with it
 # (with and without --features serde), (3) the demonstration fails with it, (4) the demonstration passes without it.
+# env DEMO_FLAGS=--release for demonstrations that only fail without debug assertions
 # usage: confirm_seed.sh <dir containing patch.diff and demo.rs>     (prints one line, exit 0 if all four hold)
 set -u
 D=$(cd "$1" && pwd); W=/tmp/confirm-seed-$$; T=/tmp/confirm-seed-target
@@ -13,9 +14,9 @@ git apply "$D/patch.diff" || { echo "$D: patch does not apply"; exit 1; }
 s1=$(cargo test --workspace --no-fail-fast --offline 2>&1 | grep -E "^test result" | awk '{p+=$4; f+=$6} END{print p"/"f}')
 s2=$(cargo test --workspace --no-fail-fast --offline --features serde 2>&1 | grep -E "^test result" | awk '{p+=$4; f+=$6} END{print p"/"f}')
 cp "$D/demo.rs" tests/seed_demo.rs
-d1=$(cargo test --offline --features serde --test seed_demo 2>&1 | grep -E "^test result" | awk '{print $4"/"$6}')
+d1=$(cargo test --offline --features serde ${DEMO_FLAGS:-} --test seed_demo ${DEMO_ARGS:-} 2>&1 | grep -E "^test result" | awk '{print $4"/"$6}')
 git checkout -q -- src Cargo.toml
-d0=$(cargo test --offline --features serde --test seed_demo 2>&1 | grep -E "^test result" | awk '{print $4"/"$6}')
+d0=$(cargo test --offline --features serde ${DEMO_FLAGS:-} --test seed_demo ${DEMO_ARGS:-} 2>&1 | grep -E "^test result" | awk '{print $4"/"$6}')
 rm -f tests/seed_demo.rs
 ok=1
 p1=${s1%/*}; f1=${s1#*/}; p2=${s2%/*}; f2=${s2#*/}; [ "${p1:-0}" -ge 158 ] && [ "${f1:-1}" = 0 ] && [ "${p2:-0}" -ge 159 ] && [ "${f2:-1}" = 0 ] || ok=0
